@@ -52,6 +52,8 @@ GEN = {
     ],
 }
 
+LAYOUTS = ["std", "forder", "tview", "revrows", "revcols", "everyrow2", "everycol2"]
+
 PROFILES = [(8, 0, 10), (8, 4, 10), (12, 4, 10), (8, 8, 10), (8, 4, 200000), (4, 2, 10), (16, 6, 100000), (8, 10, 10),
             (20, 12, 10), (8, 4, 20000), (40, 16, 10), (8, 3, 1000),
             (10, 4, 10), (13, 5, 125000), (6, 6, 10), (14, 3, 250000), (9, 9, 10), (17, 4, 375000), (22, 11, 62500), (34, 7, 10)]
@@ -82,6 +84,7 @@ def random_cases(ctx, count):
             "x": x, "y": y, "w4": w4, "d": d, "crit": r.choice(["gini", "entropy"]),
             "md": r.choice([-1, -1, 1, 2, 3, 5]), "mws4": mws4, "mwl4": mwl4, "mid6": mid6,
             "lt": lt, "ft": r.choice(["f64", "f32"]),
+            "lay": r.choice(LAYOUTS) if d >= 2 else "std",
             "scale": {"off": 0, "mul": 1, "pm": 1, "plo": -1, "phi": (2 * maxv + 1) if d < 3 else 3}}})
     return out
 
@@ -164,6 +167,10 @@ def run(ctx):
     ctx.nontrivial = len(nt)
     ctx.extra["cases_with_two_or_more_splits"] = sum(1 for v in nt.values() if v >= 2)
     ctx.extra["cases_with_weights"] = sum(1 for t in traces if t["inp"]["w4"])
+    per_layout = {l: sum(1 for t in traces if t["inp"].get("lay") == l and splits(t) >= 1) for l in LAYOUTS}
+    ctx.extra["split_cases_per_record_layout"] = per_layout
+    if min(per_layout.values()) == 0:
+        raise vlib.ToolError("a record layout has no case with a split: %r" % per_layout)
     vlib.sample(ctx, [t for t in traces if splits(t) >= 2][:1] + [t for t in traces if t["inp"]["w4"] and splits(t) == 1][:1])
     vlib.validate_with_findings(ctx, "Trace_DTree", traces, constants=TRACE_CONST, chunk=4000)
     ctx.exhaustive = False
@@ -184,6 +191,8 @@ def replay(ctx, case):
     binp = vlib.cargo_build("c14")
     case = dict(case)
     case.pop("ev", None)
+    case["inp"] = dict(case["inp"])
+    case["inp"].setdefault("lay", "std")        # replay files recorded before round 3
     traces = vlib.run_harness(ctx, binp, [case])
     ctx.cases = 1
     vlib.validate_with_findings(ctx, "Trace_DTree", traces, constants=TRACE_CONST)
